@@ -9,7 +9,7 @@ use std::process::{Child, Command, Stdio};
 use std::sync::atomic::{AtomicU64, Ordering};
 use std::time::{Duration, Instant};
 
-use super::gen::{self, GraphSpec, Op, CONTENT_POOL};
+use super::gen::{self, GraphSpec, Op};
 use super::model::Model;
 
 static COUNTER: AtomicU64 = AtomicU64::new(0);
@@ -203,7 +203,7 @@ impl RealWorld
             Op::Edit { leaf, content } =>
             {
                 let l = self.leaves[gen::pick(*leaf, self.leaves.len())].clone();
-                let c = CONTENT_POOL[*content as usize % 5].as_bytes().to_vec();
+                let c = gen::content(*content);
                 if let Some(old) = self.model.files.get(&l) { self.leaf_history.entry(l.clone()).or_default().push(old.clone()); }
                 self.write(&l, &c)?;
                 self.model.files.insert(l, c);
@@ -230,7 +230,7 @@ impl RealWorld
             {
                 let ts = self.model.all_targets();
                 let p = ts[gen::pick(*t, ts.len())].clone();
-                self.write(&p, CONTENT_POOL[*content as usize % 5].as_bytes())?;
+                self.write(&p, &gen::content(*content))?;
                 Ok(true)
             }
             Op::DeleteTarget { t } =>
